@@ -84,12 +84,11 @@ def _setstr(base):
         name='mpn_set_str_b%d' % base, props=['C06', 'C04', 'C15'], source='mpn/generic/set_str.c', extra_sources=['mpn/mp_bases.c'], contracts=['mpn.h'],
         contract_text=('#define V_BASE %d\n#define V_KC %d\n' % (base, k)) + SS_CONTRACT, enforce=['__gmpn_set_str'],
         functions={'__gmpn_set_str': dict(
-            inserts=[(r'int inp_digit = \*s;', r'\g<0> __CPROVER_assume (0 <= inp_digit && inp_digit < V_BASE);')],
             loops={0: dict(scalars=['size', 'next_bitpos', 'res_digit'], havoc_targets=['s'], local_to_body=['inp_digit'],
                            havoc='{ long V_c = nondet_long (); __CPROVER_assume (0 <= V_c && (unsigned long) V_c < str_len); s = str + (str_len - 1 - V_c); }', havoc_inv={'V_c': '((str + str_len - 1) - s)'},
-                           slices=[('rp', '((str_len * V_KC + 63) / 64) * 8')], inv=inv, dec='(s - str + 1)',
+                           slices=[('rp', '((str_len * V_KC + 63) / 64) * 8')], inv=inv, dec='(s - str + 1)', begin='__CPROVER_assume (*s < V_BASE);',
                            incr_as=dict(cond='s >= str', incr='s--', exit_when='s == str'))})},
-        assumptions=['base %d only (one unit per power-of-two base); precondition "every input digit is below the base" is instantiated by a woven assume at the digit each iteration reads; the general-base path has no unit' % base,
+        assumptions=['base %d only (one unit per power-of-two base); precondition "every input digit is below the base" is instantiated by a woven assume on the BYTE IN MEMORY (*s < base) that each iteration is about to read; the general-base path has no unit' % base,
                      'the loop header `for (s = str + len - 1; s >= str; s--)` ends with s one below str (ISO C undefined, flat memory with gcc): the cut tests s == str before the decrement instead; s is dead after the loop'],
         harness='''void h_mpn_set_str_b%d (void) {
   size_t len = nondet_ulong (); __CPROVER_assume (1 <= len && len <= (size_t) V_NMAX);
